@@ -2445,6 +2445,38 @@ func dualCase(m *bfModel, nf *ssa.Function, c types.Type, conns []types.Type, op
 	default:
 		return Undecided, "the operand list of the dual is not a converted slice"
 	}
+	// the list may be built by a helper that receives the operands: continue inside it
+	loopFn := nf
+	for depth := 0; depth < 2; depth++ {
+		call, ok := list.(*ssa.Call)
+		if !ok {
+			break
+		}
+		sc := call.Call.StaticCallee()
+		if sc == nil || len(call.Call.Args) != 1 || len(sc.Params) != 1 || len(sc.Blocks) == 0 {
+			return Undecided, "the operand list of the dual comes from a call the rule cannot follow"
+		}
+		sc = m.w.unwrap(sc)
+		arg := call.Call.Args[0]
+		if ct, ok := arg.(*ssa.ChangeType); ok {
+			arg = ct.X
+		}
+		if arg != operand {
+			return Violated, "the helper that builds the operand list of the dual is not given the operands of the negated connective"
+		}
+		var ret ssa.Value
+		nret := 0
+		for _, b := range sc.Blocks {
+			if r, ok := b.Instrs[len(b.Instrs)-1].(*ssa.Return); ok && len(r.Results) == 1 {
+				ret = r.Results[0]
+				nret++
+			}
+		}
+		if nret != 1 {
+			return Undecided, "the helper that builds the operand list has several returns"
+		}
+		operand, list, loopFn = sc.Params[0], ret, sc
+	}
 	var elemStores []*ssa.Store
 	collect := func(base ssa.Value) bool {
 		for _, ref := range *base.Referrers() {
@@ -2460,6 +2492,10 @@ func dualCase(m *bfModel, nf *ssa.Function, c types.Type, conns []types.Type, op
 					return false
 				}
 			case *ssa.ChangeType, *ssa.Convert, *ssa.Slice, *ssa.DebugRef:
+			case *ssa.Return:
+				if loopFn == nf {
+					return false
+				}
 			default:
 				return false
 			}
@@ -2534,7 +2570,7 @@ func dualCase(m *bfModel, nf *ssa.Function, c types.Type, conns []types.Type, op
 		if !sameIndex(eia.Index, ia.Index) {
 			return Undecided, "operand i of the dual is not the negation of operand i"
 		}
-		h, why := bfFullRangeIndex(nf, ia.Index, operand)
+		h, why := bfFullRangeIndex(loopFn, ia.Index, operand)
 		if h == nil {
 			return Undecided, "the operands are not negated in a full-range loop: " + why
 		}
